@@ -32,7 +32,7 @@ def toy_model(D=0.1, E=0.06, lam=0.1, T0=1.0, a=3.0, u=1.0):
     return ToyModel()
 
 
-def new_manager(gridM=20, errTol=1e-2, Tn=1.15, u=1.0, model_kwargs=None, momentumGridSize=None):
+def new_manager(gridM=20, errTol=1e-2, Tn=1.15, u=1.0, model_kwargs=None, momentumGridSize=None, scalar_scale=False, first_step=None):
     import WallGo
     from WallGo import Fields
     warnings.simplefilter("ignore")
@@ -43,17 +43,20 @@ def new_manager(gridM=20, errTol=1e-2, Tn=1.15, u=1.0, model_kwargs=None, moment
         m.config.configGrid.momentumGridSize = momentumGridSize
     m.config.configEOM.errTol = errTol
     m.config.configThermodynamics.tmin = 0.9
+    if first_step is not None:
+        m.config.configThermodynamics.phaseTracerFirstStep = first_step      # documented: "in units of the maximum step size dT"
     m.registerModel(toy_model(u=u, **(model_kwargs or {})))
-    setup(m, Tn, u)
+    setup(m, Tn, u, scalar_scale)
     return m
 
 
-def setup(m, Tn, u=1.0):
+def setup(m, Tn, u=1.0, scalar_scale=False):
+    """scalar_scale: hand the field variation scale over as ONE number (the documented alternative to a list with one entry per field)"""
     import WallGo
     from WallGo import Fields
     m.setupThermodynamicsHydrodynamics(
         WallGo.PhaseInfo(temperature=Tn * u, phaseLocation1=Fields([0.0]), phaseLocation2=Fields([2.0 * u])),
-        WallGo.VeffDerivativeSettings(temperatureVariationScale=0.1 * u, fieldValueVariationScale=[0.5 * u]))
+        WallGo.VeffDerivativeSettings(temperatureVariationScale=0.1 * u, fieldValueVariationScale=(0.5 * u if scalar_scale else [0.5 * u])))
 
 
 def settings(thick=5.0):
